@@ -145,7 +145,7 @@ impl EventGen for Container {
                 // Special case <svg> elements with an xmlns attribute - passed through
                 // transparently, with no bbox calculation.
                 if new_el.name == "svg" && new_el.get_attr("xmlns").is_some() {
-                    return Ok((self.0.all_events(context).into(), None));
+                    return Ok((OutputList::verbatim(self.0.all_events(context)), None));
                 }
                 new_el.eval_attributes(context)?;
                 if context.config.add_metadata {
@@ -588,7 +588,7 @@ pub fn process_events(
     // siblings are still processed.
     if context.at_top_level() && is_real_svg(&input) {
         context.real_svg = true;
-        return Ok((input.into(), None));
+        return Ok((OutputList::verbatim(input), None));
     }
     let mut output = OutputList::new();
     let mut idx_output = BTreeMap::<OrderIndex, OutputList>::new();
